@@ -80,13 +80,17 @@ def _construct_props(err):
             'SwitchCaseDoesNotHaveBranchError': ['C09']}.get(name, [])
 
 
+def _artefact(err):
+    return isinstance(err, ENGINE_ARTEFACT_TYPES) and not isinstance(err, (rt.Boom, rt.ECancel, rt.Fatal))
+
+
 def check_outcome(obs, ro, ref, cancelled=False):
     """C01 / C05 verdict for one run."""
     out = _check_outcome(obs, ro, ref, cancelled)
     err = ro.error if ro.outcome == 'error' else ro.raised
     if err is not None:
         for f in out:
-            if f['kind'] in ('error_instead_of_value', 'wrong_error'):
+            if f['kind'] in ('error_instead_of_value', 'wrong_error', 'engine_artefact_reported'):
                 f['prop'] = sorted(set(f['prop']) | set(_construct_props(err)))
     return out
 
@@ -122,8 +126,11 @@ def _check_outcome(obs, ro, ref, cancelled=False):
             if ro.value != exp[1]:
                 out.append(F(['C01'], 'wrong_value', got=_short(ro.value, 400), exp=_short(exp[1], 400)))
         else:
-            sub = 'engine_artefact' if isinstance(ro.error, ENGINE_ARTEFACT_TYPES) else 'spurious'
-            out.append(F(['C01', 'C05'], 'error_instead_of_value', err=_short(ro.error), sub=sub))
+            if _artefact(ro.error):
+                # an engine-internal lookup / type / cancellation error as the verdict of a run in which no node fails
+                out.append(F(['C01', 'C05'], 'engine_artefact_reported', err=_short(ro.error), exp='value'))
+            else:
+                out.append(F(['C01', 'C05'], 'error_instead_of_value', err=_short(ro.error), sub='spurious'))
     else:
         if ro.outcome == 'value':
             out.append(F(['C01', 'C05'], 'value_instead_of_error', got=_short(ro.value, 300),
@@ -131,8 +138,11 @@ def _check_outcome(obs, ro, ref, cancelled=False):
         else:
             ok, why = error_admissible(ro.error, exp[1], ridx, obs)
             if not ok:
-                sub = 'engine_artefact' if isinstance(ro.error, ENGINE_ARTEFACT_TYPES) else 'other'
-                out.append(F(['C05'], 'wrong_error', why=why, sub=sub, causes=_short(sorted(exp[1]))))
+                if _artefact(ro.error):
+                    out.append(F(['C05'], 'engine_artefact_reported', err=_short(ro.error), exp='error',
+                                 causes=_short(sorted(exp[1]))))
+                else:
+                    out.append(F(['C05'], 'wrong_error', why=why, sub='other', causes=_short(sorted(exp[1]))))
             elif exp[0] == 'raised':
                 pass
     return out
@@ -437,7 +447,11 @@ def check_post_end(obs, ro):
             # pool's future: known finding KF-POOLWINDOW; a later pick-up is an ordinary 'started_after_end'
             out.append(F(['C13'], 'queued_pool_job_started_in_cancel_window', node=r['node'], step=r['step'],
                          end_step=ro.end_step))
-        elif k in ('submit', 'default_call', 'pool_start') or k.startswith('cb_node') or k == 'save' or \
+        elif k in ('cb_resume', 'cb2_resume'):
+            # an event callback that was suspended when the run ended goes on executing afterwards
+            out.append(F(['C13'], 'callback_running_after_end', node=r['node'], cb=r.get('cb'), step=r['step'],
+                         end_step=ro.end_step))
+        elif k in ('submit', 'default_call', 'pool_start') or k.startswith('cb_node') or k.startswith('cb2_node') or k == 'save' or \
                 k == 'cb_pipeline_start' or k == 'cb_pipeline_complete':
             out.append(F(['C13'], 'started_after_end', what=k, node=r['node'], step=r['step'],
                          end_step=ro.end_step))
